@@ -188,3 +188,538 @@ def translate_decisions(path, spec, prefix='gen_'):
 
 if __name__ == '__main__':
     print(translate_decisions(sys.argv[1], eval(sys.argv[2])))
+
+
+# =====================================================================================================================
+# Second kind of kernel (round 4): the BOOKKEEPING of parse_aseq_program / parse_single_seq_program — module-level
+# functions that fill local containers (lists, OrderedDicts, dicts) inside (nested) for loops.  Technique of
+# py2gallina_c17.ObjTranslator (methods updating `self` -> functions on a record), carried over to "a function updating
+# its own mutable locals": the declared mutable locals become the fields of a Gallina record that is threaded through
+# the statements; a for loop becomes a top-level Fixpoint over the children of a Loop that threads the record; every
+# statement is translated operand by operand.  Everything outside the accepted subset raises Unsupported.
+#
+#   statements   x = []  |  x = {}  |  x = OrderedDict()         (x a declared mutable local: record update)
+#                x = tuple(x)                                    (same value: record update with itself)
+#                y = D.setdefault(k, v)                          (D an OrderedDict local; y an immutable local)
+#                y = <expr>                                      (immutable local: let)
+#                D[k] = v   |  L.append(e)                       (dict / list local)
+#                assert c   |  if c: ... [else: ...]  | return ParsedProgram(kw=...)
+#                for I, X in enumerate(P):                       (P a Loop: its children)
+#                for I, (A, B, C) in enumerate(((E1, E2, E3) for Y in P)):   (generator: evaluated lazily, element by
+#                                                                 element, which is the order of the Fixpoint)
+#                after all loops, at top level:  x = <expr of another type>  -> an immutable local that shadows x
+#   expressions  names, int constants, a + b, len(container), k in D, D[k] (KeyError -> Err ECrash), tuple / list
+#                displays, TableDescription(...) / TableEntry(...) with exactly the NamedTuple's keywords (checked against
+#                the definition in the source), int(r) / isinstance(r, int) for a repetition definition,
+#                tuple(D.keys()), list(map(list, D)), cast(T, x), and the declared observations of a Loop variable
+#                (.repetition_definition .volatile_repetition .repetition_count .depth(), _get_used_waveform(x,
+#                used_channels)), truth value of an Optional, `is not None`, not / and / or
+# Types are Gallina types as python values: 'Z' 'bool' 'loop' 'repdef' 'wfkey' 'gdesc' 'gentry' 'gpos' 'optv',
+# ('list', T), ('dict', K, V) [assoc list in insertion order].
+
+_GT = {'Z': 'Z', 'bool': 'bool', 'loop': 'loop', 'repdef': 'repdef', 'wfkey': 'wfkey', 'gdesc': 'gdesc', 'gentry': 'gentry',
+       'gpos': 'gpos', 'optv': 'option vprop', 'gtable': 'list gentry'}
+_EQB = {'wfkey': 'wfkey_eqb', ('list', 'gentry'): 'gtable_eqb', 'gpos': 'gpos_eqb'}
+
+
+def gt(t):
+    if isinstance(t, str):
+        return _GT[t]
+    if t[0] == 'list':
+        return 'list %s' % gtp(t[1])
+    if t[0] == 'dict':
+        return 'list (%s * %s)' % (gtp(t[1]), gtp(t[2]))
+    raise Unsupported('type %r' % (t,))
+
+
+def gtp(t):
+    s = gt(t)
+    return s if ' ' not in s else '(%s)' % s
+
+
+def eqb_of(t):
+    if t not in _EQB:
+        raise Unsupported('no equality for keys of type %r' % (t,))
+    return _EQB[t]
+
+
+LOOP_ATTRS = {'repetition_definition': ('l_repdef', 'repdef'), 'volatile_repetition': ('l_volp', 'optv'),
+              'repetition_count': ('l_rep', 'Z')}
+NAMEDTUPLES = {'TableDescription': ['repetition_count', 'element_id', 'jump_flag'],
+               'TableEntry': ['repetition_count', 'element_number', 'jump_flag']}
+RESULT_FIELDS = [('advanced_sequencer_table', ('list', 'gdesc')), ('sequencer_tables', ('list', ('list', 'gentry'))),
+                 ('waveforms', ('list', 'wfkey')), ('volatile_parameter_positions', ('dict', 'gpos', 'repdef'))]
+
+
+class FuncStateTranslator:
+    def __init__(self, tree, fname, params, state, short):
+        """params: [(name, type | None = opaque, only usable where an observation names it)];
+        state: [(mutable local, type)]; short: prefix of the generated names"""
+        self.tree, self.fname, self.short = tree, fname, short
+        fs = [n for n in tree.body if isinstance(n, ast.FunctionDef) and n.name == fname]
+        if len(fs) != 1:
+            raise Unsupported('function %s not found' % fname)
+        self.f = fs[0]
+        a = self.f.args
+        if self.f.decorator_list or a.vararg or a.kwarg or a.kwonlyargs or a.defaults or a.posonlyargs:
+            raise Unsupported('signature of ' + fname)
+        if [x.arg for x in a.args] != [p for p, _ in params]:
+            raise Unsupported('parameters of %s are %s' % (fname, [x.arg for x in a.args]))
+        self.params, self.state = params, state
+        self.stypes = dict(state)
+        self.rec = 'gst_' + short
+        self.aux, self.nloops, self.tmp = [], 0, 0
+        self._check_namedtuples()
+        self._check_state_is_complete()
+
+    # ---- checks of the schema against the source
+    def _check_namedtuples(self):
+        found = {}
+        for n in self.tree.body:
+            if isinstance(n, ast.Assign) and len(n.targets) == 1 and isinstance(n.targets[0], ast.Name) \
+                    and n.targets[0].id in NAMEDTUPLES and isinstance(n.value, ast.Call) and ast.unparse(n.value.func) == 'NamedTuple':
+                fields = n.value.args[1]
+                found[n.targets[0].id] = [(e.elts[0].value, ast.unparse(e.elts[1])) for e in fields.elts]
+        for name, fields in NAMEDTUPLES.items():
+            if found.get(name) != [(f, 'int') for f in fields]:
+                raise Unsupported('%s is defined as %s' % (name, found.get(name)))
+        dcs = [n for n in self.tree.body if isinstance(n, ast.ClassDef) and n.name == 'ParsedProgram']
+        if len(dcs) != 1:
+            raise Unsupported('ParsedProgram not found')
+        got = [s.target.id for s in dcs[0].body if isinstance(s, ast.AnnAssign) and isinstance(s.target, ast.Name)]
+        if got != [f for f, _ in RESULT_FIELDS]:
+            raise Unsupported('fields of ParsedProgram are %s' % got)
+
+    def _check_state_is_complete(self):
+        """every local that is mutated (append / subscript store / setdefault / re-assigned inside a loop) is declared"""
+        mutated = set()
+        for sub in ast.walk(self.f):
+            if isinstance(sub, ast.Call) and isinstance(sub.func, ast.Attribute) and isinstance(sub.func.value, ast.Name) \
+                    and sub.func.attr in ('append', 'setdefault', 'extend', 'insert', 'pop', 'update', 'clear', 'remove',
+                                          'popitem', 'move_to_end', 'sort', 'reverse'):
+                mutated.add(sub.func.value.id)
+            if isinstance(sub, (ast.Assign, ast.AugAssign)):
+                for t in (sub.targets if isinstance(sub, ast.Assign) else [sub.target]):
+                    if isinstance(t, ast.Subscript) and isinstance(t.value, ast.Name):
+                        mutated.add(t.value.id)
+            if isinstance(sub, ast.Delete):
+                raise Unsupported('del')
+        undeclared = mutated - set(self.stypes)
+        if undeclared:
+            raise Unsupported('mutated locals %s are not declared as state' % sorted(undeclared))
+
+    # ---- state record
+    def record_text(self):
+        fields = ';\n  '.join('%s_%s : %s' % (self.short, f, gt(t)) for f, t in self.state)
+        return 'Record %s := mk_%s {\n  %s }.' % (self.rec, self.rec, fields)
+
+    def fget(self, f):
+        return '(%s_%s st)' % (self.short, f)
+
+    def fupd(self, f, val):
+        return '(mk_%s %s)' % (self.rec, ' '.join(val if g == f else self.fget(g) for g, _ in self.state))
+
+    def fresh(self, base='tmp'):
+        self.tmp += 1
+        return '%s%d' % (base, self.tmp)
+
+    # ---- expressions.  env: python name -> (gallina text, type); state fields are looked up after env (a shadowing
+    # local wins).  `pre` collects fallible sub-terms to bind first: (term of type result T, bound name)
+    def lookup(self, name, env):
+        if name in env:
+            return env[name]
+        if name in self.stypes:
+            return self.fget(name), self.stypes[name]
+        raise Unsupported('unknown name ' + name)
+
+    def loop_var(self, e, env):
+        """a Loop-typed variable, possibly wrapped in cast(Sequence[Loop], .)"""
+        if isinstance(e, ast.Call) and isinstance(e.func, ast.Name) and e.func.id == 'cast' and len(e.args) == 2 and not e.keywords:
+            e = e.args[1]
+        if isinstance(e, ast.Name):
+            x, t = self.lookup(e.id, env)
+            if t == 'loop':
+                return x
+        raise Unsupported('not a Loop variable: ' + ast.unparse(e))
+
+    def kwargs(self, call, names):
+        if call.args or [k.arg for k in call.keywords] != names:
+            raise Unsupported('%s must be called with the keywords %s in this order' % (ast.unparse(call.func), names))
+        return [k.value for k in call.keywords]
+
+    def expr(self, e, env, pre, want=None):
+        if isinstance(e, ast.Constant):
+            if isinstance(e.value, bool) or not isinstance(e.value, int):
+                raise Unsupported('constant %r' % (e.value,))
+            return ('%d' % e.value if e.value >= 0 else '(%d)' % e.value), 'Z'
+        if isinstance(e, ast.Name):
+            return self.lookup(e.id, env)
+        if isinstance(e, ast.Attribute) and isinstance(e.value, ast.Name) and e.attr in LOOP_ATTRS:
+            x = self.loop_var(e.value, env)
+            g, t = LOOP_ATTRS[e.attr]
+            return '(%s %s)' % (g, x), t
+        if isinstance(e, ast.BinOp) and isinstance(e.op, ast.Add):
+            a, ta = self.expr(e.left, env, pre)
+            b, tb = self.expr(e.right, env, pre)
+            if (ta, tb) != ('Z', 'Z'):
+                raise Unsupported('+ on %r, %r' % (ta, tb))
+            return '(%s + %s)' % (a, b), 'Z'
+        if isinstance(e, ast.Tuple):
+            if want == 'gpos':
+                if len(e.elts) != 2:
+                    raise Unsupported('position tuple')
+                a, ta = self.expr(e.elts[0], env, pre)
+                b, tb = self.expr(e.elts[1], env, pre)
+                if (ta, tb) != ('Z', 'Z'):
+                    raise Unsupported('position of %r, %r' % (ta, tb))
+                return '(PSeq %s %s)' % (a, b), 'gpos'
+            if len(e.elts) != 2:
+                raise Unsupported('only pairs')
+            a, ta = self.expr(e.elts[0], env, pre)
+            b, tb = self.expr(e.elts[1], env, pre)
+            if (ta, tb) == ('gdesc', 'optv'):
+                return '(%s, %s)' % (a, b), 'gentry'
+            raise Unsupported('pair of %r, %r' % (ta, tb))
+        if isinstance(e, ast.List):
+            if len(e.elts) != 1:
+                raise Unsupported('list display')
+            a, ta = self.expr(e.elts[0], env, pre)
+            return '[%s]' % a, ('list', ta)
+        if isinstance(e, ast.Subscript):
+            d, td = self.expr(e.value, env, pre)
+            if not (isinstance(td, tuple) and td[0] == 'dict'):
+                raise Unsupported('subscript of %r' % (td,))
+            k, tk = self.expr(e.slice, env, pre, td[1])
+            if tk != td[1]:
+                raise Unsupported('dict key type')
+            n = self.fresh()
+            pre.append(('match alookup %s %s %s with Some v => Ok v | None => Err ECrash end' % (eqb_of(td[1]), k, d), n))
+            return n, td[2]
+        if isinstance(e, ast.Call):
+            return self.call(e, env, pre)
+        if isinstance(e, (ast.Compare, ast.BoolOp)) or (isinstance(e, ast.UnaryOp) and isinstance(e.op, ast.Not)):
+            return self.cond(e, env, pre), 'bool'
+        raise Unsupported('expression ' + ast.unparse(e)[:60])
+
+    def call(self, e, env, pre):
+        f = e.func
+        fn = ast.unparse(f)
+        if fn == 'len' and len(e.args) == 1 and not e.keywords:
+            if isinstance(e.args[0], ast.Name) and self.lookup(e.args[0].id, env)[1] == 'loop':
+                return '(l_len %s)' % self.lookup(e.args[0].id, env)[0], 'Z'
+            x, tx = self.expr(e.args[0], env, pre)
+            if not (isinstance(tx, tuple) and tx[0] in ('list', 'dict')):
+                raise Unsupported('len of %r' % (tx,))
+            return '(Z.of_nat (length %s))' % x, 'Z'
+        if fn in NAMEDTUPLES:
+            vals = self.kwargs(e, NAMEDTUPLES[fn])
+            parts = []
+            for v in vals:
+                x, tx = self.expr(v, env, pre)
+                if tx != 'Z':
+                    raise Unsupported('%s field of type %r' % (fn, tx))
+                parts.append(x)
+            return '(%s, %s, %s)' % tuple(parts), 'gdesc'
+        if fn == 'int' and len(e.args) == 1 and not e.keywords:
+            x, tx = self.expr(e.args[0], env, pre)
+            if tx != 'repdef':
+                raise Unsupported('int() of %r' % (tx,))
+            return '(repdef_int %s)' % x, 'Z'
+        if fn == 'isinstance' and len(e.args) == 2 and ast.unparse(e.args[1]) == 'int':
+            x, tx = self.expr(e.args[0], env, pre)
+            if tx != 'repdef':
+                raise Unsupported('isinstance(., int) of %r' % (tx,))
+            return '(repdef_is_int %s)' % x, 'bool'
+        if fn == 'tuple' and len(e.args) == 1 and not e.keywords:
+            a = e.args[0]
+            if isinstance(a, ast.Call) and isinstance(a.func, ast.Attribute) and a.func.attr == 'keys' and not a.args:
+                d, td = self.expr(a.func.value, env, pre)
+                if not (isinstance(td, tuple) and td[0] == 'dict'):
+                    raise Unsupported('.keys() of %r' % (td,))
+                return '(map fst %s)' % d, ('list', td[1])
+            x, tx = self.expr(a, env, pre)
+            if not (isinstance(tx, tuple) and tx[0] == 'list'):
+                raise Unsupported('tuple() of %r' % (tx,))
+            return x, tx
+        if fn == 'list' and len(e.args) == 1 and ast.unparse(e.args[0]).startswith('map(list, '):
+            m = e.args[0]
+            if len(m.args) != 2:
+                raise Unsupported('map')
+            d, td = self.expr(m.args[1], env, pre)
+            if not (isinstance(td, tuple) and td[0] == 'dict' and isinstance(td[1], tuple) and td[1][0] == 'list'):
+                raise Unsupported('list(map(list, .)) of %r' % (td,))
+            return '(map fst %s)' % d, ('list', td[1])     # iterating a dict yields its keys
+        if fn == 'cast' and len(e.args) == 2:
+            return self.expr(e.args[1], env, pre)
+        if fn == '_get_used_waveform' and len(e.args) == 2 and not e.keywords and ast.unparse(e.args[1]) == 'used_channels':
+            x = self.loop_var(e.args[0], env)
+            n = self.fresh('wf')
+            pre.append(('used_waveform tbl %s' % x, n))
+            return n, 'wfkey'
+        if isinstance(f, ast.Attribute) and f.attr == 'depth' and not e.args and not e.keywords:
+            return '(depth %s)' % self.loop_var(f.value, env), 'Z'
+        raise Unsupported('call ' + ast.unparse(e)[:60])
+
+    def cond(self, e, env, pre):
+        if isinstance(e, ast.BoolOp):
+            parts = []
+            for v in e.values:
+                inner = []
+                parts.append(self.cond(v, env, inner))
+                if inner:
+                    raise Unsupported('fallible operand of and / or')
+            return '(%s)' % (' || ' if isinstance(e.op, ast.Or) else ' && ').join(parts)
+        if isinstance(e, ast.UnaryOp) and isinstance(e.op, ast.Not):
+            return '(negb %s)' % self.cond(e.operand, env, pre)
+        if isinstance(e, ast.Compare):
+            if len(e.ops) != 1:
+                raise Unsupported('chained comparison')
+            op, rhs = e.ops[0], e.comparators[0]
+            if isinstance(op, (ast.Is, ast.IsNot)) and isinstance(rhs, ast.Constant) and rhs.value is None:
+                x, tx = self.expr(e.left, env, pre)
+                if tx != 'optv':
+                    raise Unsupported('`is None` on %r' % (tx,))
+                return ('(negb (is_some %s))' if isinstance(op, ast.Is) else '(is_some %s)') % x
+            if isinstance(op, (ast.In, ast.NotIn)):
+                d, td = self.expr(rhs, env, pre)
+                if not (isinstance(td, tuple) and td[0] == 'dict'):
+                    raise Unsupported('`in` on %r' % (td,))
+                k, tk = self.expr(e.left, env, pre, td[1])
+                if tk != td[1]:
+                    raise Unsupported('`in` key type')
+                r = '(is_some (alookup %s %s %s))' % (eqb_of(td[1]), k, d)
+                return r if isinstance(op, ast.In) else '(negb %s)' % r
+            a, ta = self.expr(e.left, env, pre)
+            b, tb = self.expr(rhs, env, pre)
+            if (ta, tb) != ('Z', 'Z'):
+                raise Unsupported('comparison of %r with %r' % (ta, tb))
+            if isinstance(op, ast.NotEq):
+                return '(negb (%s =? %s))' % (a, b)
+            if type(op) not in CMP:
+                raise Unsupported('comparison ' + type(op).__name__)
+            return '(%s %s %s)' % (a, CMP[type(op)], b)
+        x, t = self.expr(e, env, pre)
+        if t == 'bool':
+            return x
+        if t == 'optv':           # a VolatileProperty is a NamedTuple with two fields: truthy; None: falsy
+            return '(is_some %s)' % x
+        raise Unsupported('truth value of %r' % (t,))
+
+    @staticmethod
+    def wrap(pre, body):
+        for term, name in reversed(pre):
+            body = 'match %s with\n| Err e => Err e\n| Ok %s =>\n%s\nend' % (term, name, body)
+        return body
+
+    # ---- statements (continuation passing: k(env) is the text of what follows)
+    def block(self, stmts, env, k, in_loop):
+        if not stmts:
+            return k(env)
+        s, rest = stmts[0], stmts[1:]
+        nxt = lambda env2: self.block(rest, env2, k, in_loop)
+        if isinstance(s, ast.Pass) or (isinstance(s, ast.Expr) and isinstance(s.value, ast.Constant) and isinstance(s.value.value, str)):
+            return nxt(env)
+        if isinstance(s, ast.Assert):
+            pre = []
+            c = self.cond(s.test, env, pre)
+            return self.wrap(pre, 'if %s then\n%s\nelse Err EAssert' % (c, nxt(env)))
+        if isinstance(s, ast.Return):
+            if in_loop or rest:
+                raise Unsupported('return inside a loop / before the end')
+            return self.ret(s, env)
+        if isinstance(s, ast.If):
+            pre = []
+            c = self.cond(s.test, env, pre)
+            # both branches continue with the statements after the if (duplicated; they are short)
+            return self.wrap(pre, 'if %s then\n%s\nelse\n%s' % (c, self.block(s.body, env, nxt, in_loop),
+                                                              self.block(s.orelse, env, nxt, in_loop)))
+        if isinstance(s, ast.For):
+            return self.for_stmt(s, rest, env, k, in_loop)
+        if isinstance(s, ast.Expr) and isinstance(s.value, ast.Call):
+            c = s.value
+            if isinstance(c.func, ast.Attribute) and c.func.attr == 'append' and isinstance(c.func.value, ast.Name) \
+                    and len(c.args) == 1 and not c.keywords:
+                name = c.func.value.id
+                if name in env or name not in self.stypes:
+                    raise Unsupported('append to ' + name)
+                t = self.stypes[name]
+                pre = []
+                v, tv = self.expr(c.args[0], env, pre)
+                if not (isinstance(t, tuple) and t[0] == 'list' and t[1] == tv):
+                    raise Unsupported('append of %r to %r' % (tv, t))
+                return self.wrap(pre, 'let st := %s in\n%s' % (self.fupd(name, '(%s ++ [%s])' % (self.fget(name), v)), nxt(env)))
+            raise Unsupported('call statement ' + ast.unparse(c)[:60])
+        if isinstance(s, ast.Assign) and len(s.targets) == 1:
+            return self.assign(s.targets[0], s.value, env, nxt, in_loop)
+        raise Unsupported('statement ' + ast.unparse(s)[:60])
+
+    def assign(self, target, value, env, nxt, in_loop):
+        pre = []
+        if isinstance(target, ast.Subscript) and isinstance(target.value, ast.Name):
+            name = target.value.id
+            if name in env or name not in self.stypes:
+                raise Unsupported('store into ' + name)
+            t = self.stypes[name]
+            if not (isinstance(t, tuple) and t[0] == 'dict'):
+                raise Unsupported('subscript store into %r' % (t,))
+            v, tv = self.expr(value, env, pre)                    # python: right hand side first, then the key
+            if t[1] == 'gpos' and not isinstance(target.slice, ast.Tuple):
+                i, ti = self.expr(target.slice, env, pre)
+                if ti != 'Z':
+                    raise Unsupported('position key of type %r' % (ti,))
+                kk, tk = '(PAdv %s)' % i, 'gpos'
+            else:
+                kk, tk = self.expr(target.slice, env, pre, t[1])
+            if (tk, tv) != (t[1], t[2]):
+                raise Unsupported('%s[%r] = %r' % (name, tk, tv))
+            return self.wrap(pre, 'let st := %s in\n%s' % (
+                self.fupd(name, '(aset %s %s %s %s)' % (eqb_of(t[1]), kk, v, self.fget(name))), nxt(env)))
+        if not isinstance(target, ast.Name):
+            raise Unsupported('assignment target ' + ast.unparse(target))
+        name = target.id
+        if name in ('st', 'tbl') or name in dict(self.params):
+            raise Unsupported('assignment to ' + name)
+        if name in self.stypes and name not in env:
+            t = self.stypes[name]
+            empty = (isinstance(value, ast.List) and not value.elts and t[0] == 'list') or \
+                    (isinstance(value, ast.Dict) and not value.keys and t[0] == 'dict') or \
+                    (isinstance(value, ast.Call) and ast.unparse(value) == 'OrderedDict()' and t[0] == 'dict')
+            if empty:
+                return 'let st := %s in\n%s' % (self.fupd(name, '[]'), nxt(env))
+            v, tv = self.expr(value, env, pre)
+            if tv == t:
+                return self.wrap(pre, 'let st := %s in\n%s' % (self.fupd(name, v), nxt(env)))
+            if in_loop or not self.after_loops:
+                raise Unsupported('%s : %r gets %r inside / before a loop' % (name, t, tv))
+            g = name + "'"                                           # a different type, after all loops: shadowing local
+            return self.wrap(pre, 'let %s := %s in\n%s' % (g, v, nxt(dict(env, **{name: (g, tv)}))))
+        # y = D.setdefault(k, v)
+        if isinstance(value, ast.Call) and isinstance(value.func, ast.Attribute) and value.func.attr == 'setdefault':
+            d = value.func.value
+            if not (isinstance(d, ast.Name) and d.id in self.stypes and d.id not in env and len(value.args) == 2 and not value.keywords):
+                raise Unsupported('setdefault on ' + ast.unparse(d))
+            t = self.stypes[d.id]
+            if not (isinstance(t, tuple) and t[0] == 'dict'):
+                raise Unsupported('setdefault on %r' % (t,))
+            kk, tk = self.expr(value.args[0], env, pre, t[1])
+            v, tv = self.expr(value.args[1], env, pre)
+            if (tk, tv) != (t[1], t[2]):
+                raise Unsupported('setdefault(%r, %r) on %r' % (tk, tv, t))
+            if name in env and env[name][1] != t[2]:
+                raise Unsupported('variable %s re-typed' % name)
+            d2 = self.fresh('d')
+            return self.wrap(pre, "let '(%s, %s) := dsetdefault %s %s %s %s in\nlet st := %s in\n%s" % (
+                name, d2, eqb_of(t[1]), kk, v, self.fget(d.id), self.fupd(d.id, d2), nxt(dict(env, **{name: (name, t[2])}))))
+        v, tv = self.expr(value, env, pre)
+        if name in env and env[name][1] != tv:
+            raise Unsupported('variable %s re-typed' % name)
+        return self.wrap(pre, 'let %s := %s in\n%s' % (name, v, nxt(dict(env, **{name: (name, tv)}))))
+
+    def ret(self, s, env):
+        v = s.value
+        if not (isinstance(v, ast.Call) and ast.unparse(v.func) == 'ParsedProgram'):
+            raise Unsupported('return value')
+        vals = self.kwargs(v, [f for f, _ in RESULT_FIELDS])
+        pre, parts = [], []
+        for (f, t), x in zip(RESULT_FIELDS, vals):
+            g, tg = self.expr(x, env, pre)
+            if tg != t:
+                raise Unsupported('ParsedProgram.%s : %r gets %r' % (f, t, tg))
+            parts.append(g)
+        return self.wrap(pre, 'Ok (mk_gparsed %s)' % ' '.join(parts))
+
+    def for_stmt(self, s, rest, env, k, in_loop):
+        if s.orelse:
+            raise Unsupported('for-else')
+        it, tg = s.iter, s.target
+        if not (isinstance(it, ast.Call) and ast.unparse(it.func) == 'enumerate' and len(it.args) == 1 and not it.keywords
+                and isinstance(tg, ast.Tuple) and len(tg.elts) == 2 and isinstance(tg.elts[0], ast.Name)):
+            raise Unsupported('only `for i, x in enumerate(...)`')
+        counter = tg.elts[0].id
+        src = it.args[0]
+        binds = []                      # (python name, python expression over the element variable)
+        if isinstance(tg.elts[1], ast.Name):
+            elem = tg.elts[1].id
+            lst = self.loop_var(src, env)
+        elif isinstance(src, ast.GeneratorExp) and isinstance(tg.elts[1], ast.Tuple) and isinstance(src.elt, ast.Tuple) \
+                and len(src.elt.elts) == len(tg.elts[1].elts) and len(src.generators) == 1 and not src.generators[0].ifs \
+                and not src.generators[0].is_async and isinstance(src.generators[0].target, ast.Name) \
+                and all(isinstance(x, ast.Name) for x in tg.elts[1].elts):
+            elem = src.generators[0].target.id
+            lst = self.loop_var(src.generators[0].iter, env)
+            binds = [(n.id, x) for n, x in zip(tg.elts[1].elts, src.elt.elts)]
+        else:
+            raise Unsupported('loop header ' + ast.unparse(s.iter)[:80])
+        new = [counter, elem] + [n for n, _ in binds]
+        for n in new:
+            if n in env or n in self.stypes or n in ('st', 'tbl') or new.count(n) > 1:
+                raise Unsupported('loop variable shadows ' + n)
+        for sub in ast.walk(s):
+            if isinstance(sub, (ast.Break, ast.Continue, ast.Return, ast.While)):
+                raise Unsupported(type(sub).__name__ + ' inside a loop')
+            if isinstance(sub, (ast.Assign, ast.AugAssign)):
+                for t in (sub.targets if isinstance(sub, ast.Assign) else [sub.target]):
+                    if isinstance(t, ast.Name) and t.id in env:
+                        raise Unsupported('the loop body assigns the outer local ' + t.id)
+        # a state variable first assigned inside this loop must be (re)initialised before the body reads it
+        self.nloops += 1
+        fname = 'gen_%s_loop%d' % (self.short, self.nloops)
+        outer = [(n, g, t) for n, (g, t) in env.items()]
+        again = "%s tbl l' (%s + 1) st %s" % (fname, counter, ' '.join(g for _, g, _ in outer))
+        benv = dict(env)
+        benv[counter] = (counter, 'Z')
+        benv[elem] = (elem, 'loop')
+        pre = []
+        lets = []
+        for n, x in binds:              # the generator's tuple is built element by element, left to right
+            g, t = self.expr(x, benv, pre)
+            lets.append((n, g, t))
+        if len(pre) > 1 or (pre and ast.unparse(binds[0][1]).find('_get_used_waveform') < 0):
+            raise Unsupported('fallible generator element other than the first')
+        for n, g, t in lets:
+            benv[n] = (n, t)
+        body = self.block(s.body, benv, lambda env2: again, True)
+        for n, g, t in reversed(lets):
+            body = 'let %s := %s in\n%s' % (n, g, body)
+        body = self.wrap(pre, body)
+        after_loops_before = self.after_loops
+        if not in_loop:
+            self.after_loops = not any(isinstance(x, ast.For) for r in rest for x in ast.walk(r))
+        after = self.block(rest, env, k, in_loop)
+        self.after_loops = after_loops_before
+        text = ('Fixpoint %s (tbl : list wfdata) (l : list loop) (%s : Z) (st : %s) %s {struct l} : result %s :=\n'
+                "match l with\n| [] => Ok st\n| %s :: l' =>\n%s\nend.") % (
+            fname, counter, self.rec, ' '.join('(%s : %s)' % (g, gt(t)) for _, g, t in outer), self.rec, elem, body)
+        self.aux.append(text)
+        call = '%s tbl (l_ch %s) 0 st %s' % (fname, lst, ' '.join(g for _, g, _ in outer))
+        return 'match %s with\n| Err e => Err e\n| Ok st =>\n%s\nend' % (call, after)
+
+    def translate(self):
+        env = {p: (p, t) for p, t in self.params if t is not None}
+        self.after_loops = False
+        init = '(mk_%s %s)' % (self.rec, ' '.join('[]' for _ in self.state))
+        body = self.block(self.f.body, env, lambda env2: (_ for _ in ()).throw(Unsupported('function ends without return')), False)
+        main = 'Definition gen_%s (tbl : list wfdata) %s : result gparsed :=\nlet st := %s in\n%s.' % (
+            self.fname, ' '.join('(%s : %s)' % (p, gt(t)) for p, t in self.params if t is not None), init, body)
+        return [self.record_text()] + self.aux + [main]
+
+
+PARSE_STATE = [('volatile_parameter_positions', ('dict', 'gpos', 'repdef')), ('advanced_sequencer_table', ('list', 'gdesc')),
+               ('sequencer_tables', ('dict', ('list', 'gentry'), 'Z')), ('waveforms', ('dict', 'wfkey', 'Z')),
+               ('current_sequencer_table', ('list', 'gentry'))]
+PARSE_SINGLE_STATE = [('sequencer_table', ('list', 'gentry')), ('waveforms', ('dict', 'wfkey', 'Z')),
+                      ('volatile_parameter_positions', ('dict', 'gpos', 'repdef'))]
+
+
+def translate_parsers(path):
+    with open(path) as fh:
+        tree = ast.parse(fh.read())
+    parts = ['(* GENERATED by /verif/translate/py2gallina_c16.py (FuncStateTranslator) from %s: parse_aseq_program, '
+             'parse_single_seq_program -- do not edit *)' % path,
+             'From Coq Require Import ZArith List Bool.', 'Require Import QV.C16.Model QV.C16.GenLibParse.',
+             'Import ListNotations.', 'Open Scope Z_scope.', 'Open Scope bool_scope.', '']
+    for fname, state, short in (('parse_aseq_program', PARSE_STATE, 'pa'), ('parse_single_seq_program', PARSE_SINGLE_STATE, 'ps')):
+        tr = FuncStateTranslator(tree, fname, [('program', 'loop'), ('used_channels', None)], state, short)
+        parts.extend(tr.translate())
+        parts.append('')
+    return '\n\n'.join(parts)
